@@ -416,6 +416,14 @@ func orderedKey(t types.Type) bool {
 	return false
 }
 
+// library map ranges iterate a run-decided permutation; harness ones stay sorted
+func rangeKeysFn() string {
+	if *flagPrefix != "" {
+		return "SortedKeys"
+	}
+	return "RangeKeys"
+}
+
 func (rw *rewriter) rewriteRange(s *ast.RangeStmt) []ast.Stmt {
 	t := rw.pkg.TypesInfo.TypeOf(s.X)
 	if t == nil {
@@ -474,7 +482,7 @@ func (rw *rewriter) rewriteRange(s *ast.RangeStmt) []ast.Stmt {
 		bodyPre = append(bodyPre, &ast.IfStmt{Cond: &ast.UnaryExpr{Op: token.NOT, X: okId}, Body: &ast.BlockStmt{List: []ast.Stmt{&ast.BranchStmt{Tok: token.CONTINUE}}}})
 		newRange := &ast.RangeStmt{
 			Key: ast.NewIdent("_"), Value: ks, Tok: token.DEFINE,
-			X:    rw.simcall("SortedKeys", m),
+			X:    rw.simcall(rangeKeysFn(), m),
 			Body: &ast.BlockStmt{List: append(bodyPre, s.Body.List...)},
 		}
 		return []ast.Stmt{&ast.BlockStmt{List: []ast.Stmt{pre, newRange}}}
